@@ -7,6 +7,10 @@ mkdir -p build evidence replays
 /venv/bin/python -m harness.gen_consts
 /venv/bin/python -m harness.pregen_all || true
 /venv/bin/python -c "from harness import core; core.ensure_makefile()"
-( cd coq && timeout 3000 make -j"$(nproc)" )
+# full .vo build of the whole development; -k so that one broken file does not hide the others
+( cd coq && timeout 3000 make -k -j"$(nproc)" >../build/setup_make.log 2>&1 ) || echo "warning: some files failed to build (see build/setup_make.log)"
+# every property claimed in MANIFEST.json must have its theorem file built
+CLAIMED=$(/venv/bin/python -c "import json;print(' '.join('props/'+c['property_id']+'.vo' for c in json.load(open('MANIFEST.json'))['checks']))")
+( cd coq && timeout 3000 make -j"$(nproc)" $CLAIMED ) >>build/setup_make.log 2>&1 || { tail -30 build/setup_make.log; echo "setup FAILED: a claimed property file does not build"; exit 1; }
 ./harness/build_ext.sh >/dev/null
 echo "setup ok"
